@@ -77,7 +77,7 @@ def strategy(tier, sub=None):
 
 
 def budget(tier, sub=None):
-    return {"examples": 10000 if tier == "quick" else 500000, "shards": 16}
+    return {"examples": 20000 if tier == "quick" else 500000, "shards": 16}
 
 
 def norm(path):
